@@ -712,9 +712,18 @@ class AbstractExcelInPython(ABC):
         return found.start() + 1 if found else '#VALUE!'
 
     def _excel_value_to_string(self, value: Any):
+        # the text form Excel gives a value that is joined with & or CONCATENATE
         if isinstance(value, (datetime.datetime)):
             base_date = datetime.datetime(1899, 12, 30)
             return str((value - base_date).days)
+        if isinstance(value, self.EmptyCell):
+            return ''
+        if isinstance(value, bool):
+            return 'TRUE' if value else 'FALSE'
+        if isinstance(value, float) and value == value and value not in (float('inf'), float('-inf')):
+            # 15 significant digits, no trailing ".0": 3/3 is 1, 0.1+0.2 is 0.3
+            text = '%.15g' % value
+            return text
 
         return str(value)
 
